@@ -130,6 +130,16 @@ def out (st : St) (cmd res : String) (c : Option Cont) : String :=
 
 def setSlot (st : St) (k : Nat) (c : Option Cont) : St := { st with slots := st.slots.set! k c }
 
+/-- model against specification on this step (always agrees: theorems `C04_refines_list_*`, `C04_*_out_of_range`);
+    printed as an `M` line so that a broken proof can be turned into a concrete input by `model_selfcheck` -/
+def specCheck {α : Type} (eqv : α → α → Bool) (sp : Option (List α)) (before after : List α) (r : Res Unit) : String :=
+  let same (xs ys : List α) : Bool := xs.length == ys.length && (xs.zip ys).all (fun p => eqv p.1 p.2)
+  let good := match sp, r with
+    | some l', .ok _ => same after l'
+    | none, .raised _ => same after before
+    | _, _ => false
+  if good then "" else "\nM model-vs-spec: the model step disagrees with the abstract sequence operation"
+
 def hasId (t : Tup Obj) (id : Nat) : Bool := t.items.any (fun o => o.id == id)
 
 def optSeq {α : Type} (f : List α → String) : Option (List α) → String
@@ -142,8 +152,14 @@ def stepInts (st : St) (k : Nat) (c : Cont) (cmd : String) (args : List String) 
   let fin (c' : Cont) (r : Res Unit) : St × String := (setSlot st k (some c'), out st cmd (resStr r) (some c'))
   let run (op : Op Int) : St × String :=
     match c with
-    | .arr s a => let (a', r) := a.step op; fin (.arr s a') r
-    | .lst s l => let (l', r) := l.step op; fin (.lst s l') r
+    | .arr s a =>
+      let (a', r) := a.step op
+      let (st', o) := fin (.arr s a') r
+      (st', o ++ specCheck (· == ·) (Spec.arrStep a.items op) a.items a'.items r)
+    | .lst s l =>
+      let (l', r) := l.step op
+      let (st', o) := fin (.lst s l') r
+      (st', o ++ specCheck (· == ·) (Spec.lstStep l.items op) l.items l'.items r)
     | .tup _ => (st, "O bad-op")
   match cmd, args with
   | "push", [e] => match parseVal str e with
@@ -200,7 +216,10 @@ def ident (o : Obj) : Nat := o.id
 def stepTup (st : St) (k : Nat) (t : Tup Obj) (cmd : String) (args : List String) : St × String :=
   let fin (st : St) (t' : Tup Obj) (r : Res Unit) : St × String :=
     (setSlot st k (some (.tup t')), out st cmd (resStr r) (some (.tup t')))
-  let run (st : St) (op : Op Obj) : St × String := let (t', r) := t.step op; fin st t' r
+  let run (st : St) (op : Op Obj) : St × String :=
+    let (t', r) := t.step op
+    let (st', o) := fin st t' r
+    (st', o ++ specCheck (fun (a b : Obj) => a.id == b.id && a.val == b.val) (Spec.tupStep t.items op) t.items t'.items r)
   let fuel := t.items.length + 1
   match cmd, args with
   | "push", [e] => match parseObj st e with
@@ -302,6 +321,39 @@ def stepLine (st : St) (line : String) : St × String :=
       | none => (st, "O kf13 fwd=diverges")
       | some l => (st, s!"O kf13 fwd={l.length}")
     | (st, none) => (st, "O bad-op")
+  | "kfself" :: opn :: kind :: elems =>
+    if opn != "assign" && opn != "concat" then (st, "O bad-op") else
+    let isc := opn == "concat"
+    let fmt (r : Res Unit) (c : Cont) : String :=
+      match r with
+      | .ok _ => s!"O kfself {opn} {kind} ret {c.dump}"
+      | .raised e => s!"O kfself {opn} {kind} ret err={e.name}"
+      | .ub => s!"O kfself {opn} {kind} ub"
+    if kind == "A" || kind == "AR" || kind == "L" then
+      let vs := elems.map (parseVal false)
+      if !vs.all Option.isSome || elems.length > 200 then (st, "O bad-op") else
+      let xs := vs.filterMap id
+      if kind == "L" then
+        let l : Lst Int := (Lst.empty.concat xs).1
+        if isc then
+          match l.concatSelf 100000 with
+          | some l' => (st, fmt (.ok ()) (.lst false l'))
+          | none => (st, s!"O kfself {opn} {kind} diverges")
+        else let (l', r) := l.assignSelf; (st, fmt r (.lst false l'))
+      else
+        let a0 : Arr Int := Arr.new xs
+        let a : Arr Int := if kind == "AR" && xs.length > 0 then (a0.resize (2 * xs.length)).1 else a0
+        let (a', r) := if isc then a.concatSelf else a.assignSelf
+        (st, fmt r (.arr false a'))
+    else if kind == "T" then
+      match parseElems st elems with
+      | (st, some os) =>
+        if !nodupIds os || elems.length > 200 then (st, "O bad-op") else
+        let t : Tup Obj := ⟨os⟩
+        let (t', r) := if isc then t.concatSelf else t.assignSelf
+        (st, fmt r (.tup t'))
+      | (st, none) => (st, "O bad-op")
+    else (st, "O bad-op")
   | "new" :: slot :: kind :: elems =>
     match emptySlot st slot with
     | none => (st, "O bad-op")
